@@ -404,6 +404,8 @@ def run(ctx):
             if not isinstance(model, (nn.Sequential, nn.ModuleList, nn.ModuleDict, Custom)):
                 model = nn.Sequential(model)
             model = model.to(wd)
+            if r.random() < 0.4:
+                model.eval()
             ctx.count("trees")
             snap = snapshot(model)
             leaves = [s["obj"] for s in snap.values() if s["kind"]]
